@@ -106,6 +106,17 @@ theorem hft_at (fuel : Nat) (tiles : List Tile.Tile) (data : List Bytes) (hw : W
       rw [List.getElem?_map, List.getElem?_eq_getElem hj2, Option.map_some, unflatS_eq ofBytes _ _ (hwi j hj hj2)]
     rw [e1, e2]
 
+omit [DecidableEq H] [Inhabited H] in
+/-- a read at a valid position of width-checked data succeeds or reports `badTile` -/
+theorem hashAt_cases (tiles : List Tile.Tile) (data : List Bytes) (hw : WidthsOK tiles data) (j x : Nat)
+    (hj : j < tiles.length) (hx : x + 1 < 2 ^ 63) :
+    (∃ v, Tile.hashAt node tiles (data.map (unflatS ofBytes)) j x = .ok v) ∨
+      Tile.hashAt node tiles (data.map (unflatS ofBytes)) j x = .error .badTile := by
+  have hjd : j < (data.map (unflatS ofBytes)).length := by simp; rw [hw.1]; exact hj
+  unfold Tile.hashAt
+  rw [List.getElem?_eq_getElem hj, List.getElem?_eq_getElem hjd]
+  exact hashFromTile_cases node _ _ x hx
+
 variable (effLog : List (List GTile × List Bytes))
 
 /-! ### loop 5: the width check -/
@@ -176,8 +187,8 @@ theorem loop6_eq (tiles : List Tile.Tile) (data : List Bytes) (hw : WidthsOK til
     match Tile.stxFold node tiles (data.map (unflatS ofBytes)) ((stx.zip sto).take m).reverse th with
     | .ok th' => Generated.Tile.tileHashReader_ReadHashes_loop6 node ofBytes (tiles.map toGen) (stx.map Int.ofNat)
         (sto.map Int.ofNat) data effLog fuel th ((m : Int) - 1) = .ok (Ctl.next (th', (-1 : Int)))
-    | .error _ => ∃ msg, HftMsg msg ∧ Generated.Tile.tileHashReader_ReadHashes_loop6 node ofBytes (tiles.map toGen)
-        (stx.map Int.ofNat) (sto.map Int.ofNat) data effLog fuel th ((m : Int) - 1) =
+    | .error e => e = .badTile ∧ ∃ msg, HftMsg msg ∧ Generated.Tile.tileHashReader_ReadHashes_loop6 node ofBytes
+        (tiles.map toGen) (stx.map Int.ofNat) (sto.map Int.ofNat) data effLog fuel th ((m : Int) - 1) =
           .ok (Ctl.ret ((([] : List H), some msg), effLog)) := by
   intro m
   induction m with
@@ -209,16 +220,17 @@ theorem loop6_eq (tiles : List Tile.Tile) (data : List Bytes) (hw : WidthsOK til
       rw [idxL_natCast' (by simp; exact hm1)]; simp
     rw [htake, e0, Generated.Tile.tileHashReader_ReadHashes_loop6]
     simp only [hge, decide_true, ↓reduceIte, hi1, hi2, mbind_ok, hgt, hd, hhft, Tile.stxFold]
-    cases hha : Tile.hashAt node tiles (data.map (unflatS ofBytes)) sto[m] stx[m] with
-    | error e =>
-      refine ⟨hftMsg tiles[sto[m]] n, hftMsg_ok _ _, ?_⟩
-      simp [hftOut, mpure]
-    | ok v =>
-      simp only [hftOut, Option.isNone_none, Bool.not_true, Bool.false_eq_true, ↓reduceIte, bind, Except.bind]
+    rcases hashAt_cases node ofBytes tiles data hw sto[m] stx[m] hj hx with ⟨v, hha⟩ | hha
+    · rw [hha]
+      simp only [hftOut, Option.isNone_none, Bool.not_true, Bool.false_eq_true, ↓reduceIte, ebind_ok]
       have hc : chk64 ((m : Int) - 1) = .ok ((m : Int) - 1) := by apply chk64_ok <;> omega
       have := ih g (node v th) (by omega) (by omega)
-      simp only [hc]
+      simp only [hc, mbind_ok]
       exact this
+    · rw [hha]
+      simp only [ebind_error]
+      refine ⟨trivial, hftMsg tiles[sto[m]] n, hftMsg_ok _ _, ?_⟩
+      simp [hftOut, mpure]
 
 /-! ### loop 8: pulling out the requested hashes -/
 
@@ -231,8 +243,9 @@ theorem loop8_eq (r : Generated.Tile.tileHashReader H) (tiles : List Tile.Tile)
     | .ok vs => Generated.Tile.tileHashReader_ReadHashes_loop8 node ofBytes r (idx.map Int.ofNat) (tiles.map toGen)
         (ito.map Int.ofNat) data effLog fuel (pre.length : Int) (hs ++ List.replicate xs.length default) =
           .ok (Ctl.next ((idx.length : Int), hs ++ vs))
-    | .error _ => ∃ msg, HftMsg msg ∧ Generated.Tile.tileHashReader_ReadHashes_loop8 node ofBytes r (idx.map Int.ofNat)
-        (tiles.map toGen) (ito.map Int.ofNat) data effLog fuel (pre.length : Int) (hs ++ List.replicate xs.length default) =
+    | .error e => e = .badMath ∧ ∃ msg, HftMsg msg ∧ Generated.Tile.tileHashReader_ReadHashes_loop8 node ofBytes r
+        (idx.map Int.ofNat) (tiles.map toGen) (ito.map Int.ofNat) data effLog fuel (pre.length : Int)
+        (hs ++ List.replicate xs.length default) =
           .ok (Ctl.ret ((([] : List H), wrapErr "bad math in tileHashReader %d %v: lost hash %v: %v" (some msg)), effLog)) := by
   intro xs
   induction xs with
@@ -298,7 +311,7 @@ theorem loop8_eq (r : Generated.Tile.tileHashReader H) (tiles : List Tile.Tile)
         exact hbad
       rw [hha]
       simp only
-      refine ⟨hftMsg tiles[ito[pre.length]] n, hftMsg_ok _ _, ?_⟩
+      refine ⟨trivial, hftMsg tiles[ito[pre.length]] n, hftMsg_ok _ _, ?_⟩
       simp [hftOut, mpure]
 
 /-! ### loop 7: authenticating the full tiles against their parents -/
@@ -364,7 +377,7 @@ theorem loop7_eq (r : Generated.Tile.tileHashReader H) (h N : Nat) (h1 : 1 ≤ h
     have hpar := tileParent_gen h N p.tiles[i] hok 1 (by omega) h57 hN
     have hpd := tileParent_data p.tiles[i] 1 N hok.data
     have hget := mapRel_get hrel _ hpd
-    have e1 : ((1 : Nat) : Int) = 1 := rfl
+    have e1 : ((1 : Nat) : Int) = 1 := by omega
     have hm1 : p.tiles[i]? = some p.tiles[i] := List.getElem?_eq_getElem hit
     have hm2 : (data.map (unflatS ofBytes))[i]? = some (unflat ofBytes data[i]) := by
       rw [List.getElem?_map, List.getElem?_eq_getElem hid, Option.map_some, unflatS_eq ofBytes _ _ (hwi i hit hid)]
@@ -423,7 +436,7 @@ theorem loop7_eq (r : Generated.Tile.tileHashReader H) (h N : Nat) (h1 : 1 ≤ h
         obtain ⟨rr, hrr⟩ := TileAuth.ptree_isSome node h _ hlen2
         have hmod := TileAuth.tileHash_ptree node h _ rr hlen2 hrr
         rw [hmod] at hth
-        simp only [hth, errOut, mbind_ok, hmod, bind, Except.bind]
+        simp only [hth, errOut, mbind_ok, hmod, ebind_ok]
         by_cases heq : v = rr
         · subst heq
           have hc : chk64 ((i : Int) + 1) = .ok (((i + 1 : Nat)) : Int) := by
@@ -433,8 +446,9 @@ theorem loop7_eq (r : Generated.Tile.tileHashReader H) (h N : Nat) (h1 : 1 ≤ h
           simp only [bne_self_eq_false, Bool.false_eq_true, ↓reduceIte, decide_true, Bool.not_true, hc, mbind_ok]
           exact this
         · have hb : (v != rr) = true := by simp [heq]
+          simp only [hb, ↓reduceIte]
           refine ⟨some "downloaded inconsistent tile", rfl, ?_⟩
-          simp only [hb, ↓reduceIte, heq, decide_false, Bool.not_false, mpure]
+          simp only [heq, decide_false, Bool.not_false, ↓reduceIte, mpure]
       · rw [hbad]
         simp only [hftOut]
         refine ⟨wrapErr "bad math in tileHashReader %d %v: lost hash of %v: %v" (some (hftMsg par (data[j].length / 32))),
